@@ -253,6 +253,20 @@ FILTERING = {'filter', 'filter_map', 'take', 'skip', 'step_by', 'take_while', 's
 BIT_EXTRACTORS = ('to_bits', 'integer_decode', 'to_ne_bytes', 'to_le_bytes', 'to_be_bytes', 'transmute', 'transmute_copy')
 
 
+SCALAR_TESTS = ('eq', 'ne', 'lt', 'le', 'gt', 'ge', 'partial_cmp', 'total_cmp', 'is_zero', 'is_sign_negative',
+                'is_sign_positive', 'abs', 'is_nan', 'is_finite', 'signum', 'ordered_eq', 'ordered_equals')
+
+
+def _is_scalar_ty(b, o):
+    """operand of float type or of a bare generic parameter type (the coordinate scalar), behind any references"""
+    if o.place is None:
+        return str((o.const or {}).get('ty', '')) in ('f64', 'f32')
+    ty = b.locals[o.place.local].replace('&mut ', '').replace('&', '').strip()
+    if o.place.proj:
+        return False
+    return ty in ('f64', 'f32') or (ty.isidentifier() and len(ty) <= 2 and ty[0].isupper())
+
+
 def _floatkey(ctx, cfg, prog):
     """FLOATKEY (lint-type, negative): equality and hashing of the crate's key types go through the ordered-float
     helpers; comparing or hashing the *bit pattern* of a scalar distinguishes -0.0 from +0.0, and the grid files a
@@ -269,10 +283,23 @@ def _floatkey(ctx, cfg, prog):
             continue
         if b.kind != 'closure':
             n += 1
+        ext = []
+        normalised = False
         for bb, t in b.calls():
             last = (t.callee or t.resolved or '').rsplit('::', 1)[-1]
             if last in BIT_EXTRACTORS:
-                bad.append((root, last, b.file, t.line))
+                ext.append((root, last, b.file, t.line))
+            elif last in SCALAR_TESTS and any(_is_scalar_ty(b, o) for o in t.args):
+                # an implementation that first tests the scalar itself (== 0, is_sign_negative, abs ...) may be
+                # normalising -0.0 / NaN before it extracts bits: not judged here (no alarm)
+                normalised = True
+        for blk in b.blocks:
+            for s_ in blk.stmts:
+                if s_.kind == 'A' and s_.rv.k == 'bin' and s_.rv.raw.get('op') in ('Eq', 'Ne', 'Lt', 'Le', 'Gt', 'Ge', 'Add') and \
+                        any(_is_scalar_ty(b, o) for o in s_.rv.ops):
+                    normalised = True
+        if not normalised:
+            bad.extend(ext)
     for (root, last, file, line) in bad:
         ctx.ob('FLOATKEY', '%s|%s' % (root, last), cfg, False,
                '%s() in an Eq / Hash implementation: the bit pattern tells -0.0 from +0.0 (and NaN payloads apart), so equal '
